@@ -406,6 +406,32 @@ func runC07(r *core.Run) {
 				}
 			}
 		}
+		// 400 files with 400 different profiles, one after the other in this one process (a table of
+		// profiles seen so far that fills up shows only from its capacity on)
+		rg := core.NewRNG(r.Seed, "C07", "bounded-many")
+		for i := 0; i < 400; i++ {
+			prof := append([]byte(fmt.Sprintf("profile number %d ", i)), rg.Bytes(40+i%50)...)
+			var f genFile
+			switch i % 3 {
+			case 0:
+				b, t := imggen.PNGSpec{W: 5, H: 7, Depth: 8, ColorType: 2, ICC: &imggen.PNGICC{Name: "m", Profile: prof, Level: 6}, IDAT: []byte{1}}.Build()
+				f = genFile{fmt.Sprintf("png with profile #%d of 400", i), b, t}
+			case 1:
+				b, t := imggen.JPEGSpec{Precision: 8, W: 5, H: 7, Comps: imggen.StdComps(1, 1, 1), Before: []imggen.JPEGSeg{imggen.ICCChunkSeg(1, 1, prof)}, ICC: prof, ICCState: "ok", Entropy: []byte{1}}.Build()
+				f = genFile{fmt.Sprintf("jpeg with profile #%d of 400", i), b, t}
+			default:
+				b, t := imggen.WebPSpec{Kind: "VP8X", W: 5, H: 7, ICC: prof, Payload: []byte{1, 2, 3}}.Build()
+				f = genFile{fmt.Sprintf("webp with profile #%d of 400", i), b, t}
+			}
+			loader := []string{loaderFor(f.Truth.Format), "autometa"}[i%2]
+			fmt.Fprintf(os.Stderr, "bounded: %s through %s\n", f.Name, loader)
+			cs := c07Case{Seed: f.Name, Cut: len(f.Bytes), Terminal: "eof", Schedule: "all", Loader: loader, ReadBuf: 7}
+			n++
+			if kind, msg, _ := c07Readout(c07Load(f.Bytes, cs)); kind != "" {
+				cs.File = base64.StdEncoding.EncodeToString(f.Bytes)
+				r.Violate("prefix", loader+"/"+kind+"/bounded", msg, cs)
+			}
+		}
 		r.AddEvals(n)
 		return
 	}
@@ -426,6 +452,15 @@ func runC07(r *core.Run) {
 			webp := append([]byte("RIFF\x20\x00\x00\x00WEBP"), cc...)
 			webp = append(webp, 4, 0, 0, 0, 1, 2, 3, 4)
 			inputs = append(inputs, webp)
+			// an extended-format header that promises a profile, followed by a chunk that is something
+			// else - with a name of printable and of unprintable bytes
+			odd := [][]byte{cc, {0x01, 'A', 'B', byte(i)}, {0xFF, 0xFF, 0xFF, byte(i)}, {0, 0, 0, 0}, {'A', 'B', 0x7F, 'C'}, {0x80 + byte(i%100), 'x', 'y', 'z'}}[i%6]
+			vx, _ := imggen.WebPSpec{Kind: "VP8X", W: 5, H: 7, Flags: 0x20, FlagsRaw: true, Payload: []byte{1, 2, 3}}.Build()
+			if k := bytes.Index(vx, []byte("VP8 ")); k > 0 {
+				v2 := append([]byte{}, vx...)
+				copy(v2[k:k+4], odd)
+				inputs = append(inputs, v2)
+			}
 		}
 		var bad atomic.Int64
 		firstUseBurst(8, false, func(g int) {
